@@ -199,6 +199,8 @@ def check_case(case, stats=None):
         viol.append({'kind': 'undeclared-error',
                      'detail': {k: e.get(k) for k in
                                 ('type', 'msg', 'frame', 'where', 'label')}})
+    from mv.props.c10 import _retriggered
+    retrig = bool(_retriggered(final))
     rows_a = _strip(enginerun.canon_rows(res, error_output=False,
                                          accepted_subs_only=outer),
                     {tname, inner_name})
@@ -225,6 +227,7 @@ def check_case(case, stats=None):
         cb['outcomes'] = ob
         cb['complete_async_at_end'] = True
         hb = history.run_history(cb, observe=False)
+        retrig = retrig or bool(_retriggered(hb.res.snap))
         rows_b = _strip(enginerun.canon_rows(hb.res, error_output=False),
                         {tname, inner_name})
         # order independence of B (else skip)
@@ -234,7 +237,14 @@ def check_case(case, stats=None):
         hb2 = history.run_history(cb2, observe=False)
         rows_b2 = _strip(enginerun.canon_rows(hb2.res, error_output=False),
                          {tname, inner_name})
-        if rows_b != rows_b2:
+        retrig = retrig or bool(_retriggered(hb2.res.snap))
+        if retrig:
+            # known finding join-retrigger in one of the compared runs (a
+            # join that left WAITING put back by a later route): not a
+            # reference, counted
+            if stats:
+                stats.counters['known_shape_join_retrigger_seen'] += 1
+        elif rows_b != rows_b2:
             if stats:
                 stats.counters['differential_skipped_not_confluent'] += 1
         elif rows_a != rows_b:
